@@ -74,7 +74,7 @@ def correspond(ctx):
                      + [{'n_programs': ctx.n(10, 300), 'mode': 'mixed'}] * 7)
     par.run_parallel(ctx, 'harness.engine_stream', 'run_chunk',
                      [{'n_programs': ctx.n(10, 300), 'props': ['C11'], 'mode': 'stop'}] * 14)
-    par.run_parallel(ctx, 'harness.tree_stream', 'run_chunk', [{'n_cases': ctx.n(8, 120)}] * 14)
+    par.run_parallel(ctx, 'harness.tree_stream', 'run_chunk', [{'n_cases': ctx.n(8, 120), 'props': ['C11']}] * 14)
     # statement granularity ("late results do not change state or output" below one transaction)
     par.run_parallel(ctx, 'harness.race_driver', 'run_chunk', RACE_CHUNKS)
 
